@@ -1,13 +1,21 @@
 """C14 -- fluent node names identify computations; operations leave operands intact.
 
 Generator: a fluent *program*: one or two from_source arrays (shared sources; callables with equal
-__name__ and different code / closure values, lambdas, callable objects without __name__,
-functools.partial, the same callable in several cells) and a sequence of operations chosen while
+__name__ and different code / closure values / defaults / nested code, lambdas, callable objects
+without __name__ (several objects of one class, of two classes, with and without a __repr__ of their
+own), methods bound to such objects (one method on two receivers, two methods of one receiver,
+inherited methods, classmethods, staticmethods), functools.lru_cache / update_wrapper'ed wrappers around
+closures, closures over objects and over other closures, builtins, functools.partial, the same callable
+in several cells; static arguments that are objects) and a sequence of operations chosen while
 the program runs (map with the same or different callables and statics, reductions with and without
 batching, two-argument arithmetic between actions whose coordinate values differ, join, stack /
 concatenate, select, transform with functions that return the action they were given, expand,
-broadcast, flatten).  Every program is built TWICE from its recorded spec, with freshly created
-function objects.
+broadcast, flatten).  Every program carries two designed pairs of callables that differ in ONE
+ingredient of their identity (receiver, closure content, default, wrapped function ...) and ends by
+mapping each of them over the same action with the same statics.  Every program is built TWICE from
+its recorded spec, with freshly created function objects / bound methods / objects with a __repr__
+(objects without one are the program's own and shared by the two builds: their address is their
+identity).
 Oracle (direct reading of the property on the real objects):
   * over all node objects of both builds, one name <-> one computation, where the computation is
     judged by the harness' own record (which callable spec, which statics, which inputs) -- never
@@ -20,24 +28,40 @@ Oracle (direct reading of the property on the real objects):
 Correspondence: (a) per build, what every node was built from + the observed names -> Coq
 (NamesCheck.check_names: hashed strings of the model vs. observed digests, name prefixes, from_source
 labels); (b) the operation sequence with the arrays of ALL actions after every operation -> Coq
-(NamesCheck.check_ops: the heap model with aliasing and in-place primitives)."""
+(NamesCheck.check_ops: the heap model with aliasing and in-place primitives); (c) per program, what
+every callable handed to the API is made of (module, qualified name, code and nested code constants,
+defaults, closure contents, repr of the receiver / of the object: read off the Python objects here)
++ the digest the real callable_id gives -> Coq (CallableCheck.check_callables: equal digest exactly
+for equal descriptions, i.e. the model Fluent/Callable.v of callable_id)."""
 import functools
 import hashlib
 import json
+import math
+import operator
+import os
+import re
 import random
+import types
 import warnings
 
-from common import cnat, clist, copt, cstr, coq_results
+from common import BUILD, cnat, clist, copt, cstr, coq_eval_file
 
 TRUSTED = [
-    "harness/c14.py: the harness' own identity of a callable (kind, name, body, closure value / object) and of a computation "
+    "harness/c14.py: the harness' own identity of a callable (kind, name, body, closure value / default / wrapped callable, "
+    "object or state of the receiver) and of a computation "
     "(callable, (type, repr) of statics, inputs); callables are created by exec of generated source; "
     "coordinate values and cells are compared through str() and through the tuple of node names",
 ]
 ASSUMPTIONS = [
     "Section hypotheses of Fluent/NamesProofs.v: custom_hash (SHA-256 hexdigest) is injective and prints hex digits only",
-    "a callable is identified with its callable_id digest: equal digests = same callable (module, qualified name, code, defaults, closure contents); "
-    "the correspondence uses the harness' own callable identities instead and checks that the implementation separates exactly those",
+    "in Fluent/Names.v a callable is its callable_id digest; Fluent/Callable.v opens the digest (module, qualified name, code, defaults, "
+    "closure contents, repr of the receiver / of a non-function): Section hypothesis there: CPython's repr of the list `parts` "
+    "(str, None, tuple, list, dict) is injective; wf_callable/dig64: a repr is not itself 64 hex digits, '<recursive>' or '<empty>', "
+    "function digests are 64 characters",
+    "an object without a __repr__ of its own is identified by its address while it lives (the program's objects are shared by the two builds); "
+    "an object with a __repr__ is identified by what that prints; function globals are not part of a callable's identity",
+    "the names correspondence uses the harness' own callable identities and checks that the implementation separates exactly those; "
+    "the callables correspondence reads the ingredients off the Python objects (types / inspect level) and checks the digests against the model",
     "wf_node: callable names, keyword names and str statics contain no quote / backslash, other statics print as one token without ' , ] }, "
     "output names are str(int); nested containers as static arguments are outside the model",
     "operand integrity: the model heap holds dims, coordinate labels, scalar coordinates and a token for the cells of every Action; "
@@ -47,7 +71,7 @@ ASSUMPTIONS = [
 ]
 
 HEADER = """From Coq Require Import List String Ascii Bool Arith.
-From EKW Require Import Fluent.Names Fluent.NamesCheck.
+From EKW Require Import Fluent.Names Fluent.NamesCheck Fluent.Callable Fluent.CallableCheck.
 Import ListNotations.
 Open Scope string_scope.
 Open Scope list_scope.
@@ -56,20 +80,85 @@ Open Scope list_scope.
 warnings.filterwarnings("ignore")
 
 # ------------------------------------------------------------------------------ callables
-BODIES = ["x", "x + 1", "x * 2", "x - 1", "(x, 0)", "x + 1 if a else x", "x + 2"]
+# (append only: stored cases refer to bodies by index)
+BODIES = ["x", "x + 1", "x * 2", "x - 1", "(x, 0)", "x + 1 if a else x", "x + 2",
+          "(lambda y: y + 1)(x)", "(lambda y: y + 2)(x)", "[y for y in (x, 'a')]", "[y for y in (x, 'b')]"]
 KBODIES = ["x + k", "x * k", "k"]
 NAMES = ["f", "g", "op"]
-# static values as written in a program spec (JSON); ["@f32", x] stands for numpy.float32(x)
+# static values as written in a program spec (JSON); ["@f32", x] stands for numpy.float32(x),
+# ["@obj", cls, i] for the program's i-th object of a class without __repr__, ["@robj", k] for _Rp(k)
 STATICS = [0, 1, -3, 2.5, True, None, "a", "x y", "input0", "input1", 10 ** 12,
-           "1", "None", "True", "2.5", ["@f32", 2.5], "a, b", "p=1", "-3"]
+           "1", "None", "True", "2.5", ["@f32", 2.5], "a, b", "p=1", "-3",
+           ["@obj", "Op", 0], ["@obj", "Op", 1], ["@obj", "Op2", 0], ["@robj", 1], ["@robj", 2], "Rp(1)"]
 # values that are different but print alike under str() (not under repr)
-TWINS = [[1, "1"], [None, "None"], [True, "True"], [2.5, "2.5", ["@f32", 2.5]], [-3, "-3"], [0, "0"], [10 ** 12, "1000000000000"]]
+TWINS = [[1, "1"], [None, "None"], [True, "True"], [2.5, "2.5", ["@f32", 2.5]], [-3, "-3"], [0, "0"], [10 ** 12, "1000000000000"],
+         [["@robj", 1], "Rp(1)"]]
 
 
-def decode_static(v):
+class _Op:
+    """callable object: no __name__, default repr; its methods are payloads too"""
+
+    def __init__(self, k=0):
+        self.k = k
+
+    def __call__(self, x=0, *a, **kw):
+        return x
+
+    def apply(self, x=0, *a, **kw):
+        return x * self.k
+
+    def other(self, x=0, *a, **kw):
+        return x + self.k
+
+    @classmethod
+    def cm(cls, x=0, *a, **kw):
+        return x
+
+    @staticmethod
+    def sm(x=0, *a, **kw):
+        return x
+
+
+class _Op2(_Op):
+    """inherits every method: same functions, another class"""
+
+
+class _Rp(_Op):
+    """prints its state"""
+
+    def __repr__(self):
+        return f"Rp({self.k!r})"
+
+
+class _Wrap:
+    """class-based decorator: carries the names of the function it wraps (functools.update_wrapper)"""
+
+    def __init__(self, f, k):
+        functools.update_wrapper(self, f)
+        self.k = k
+
+    def __call__(self, x=0, *a, **kw):
+        return self.__wrapped__(x) * self.k
+
+
+CLS = {"Op": _Op, "Op2": _Op2, "Rp": _Rp}
+METHS = ["apply", "other"]
+
+
+def builtins_table():
+    import numpy as np
+    return {"abs": abs, "float": float, "neg": operator.neg, "pos": operator.pos, "sqrt": math.sqrt, "floor": math.floor,
+            "negative": np.negative, "positive": np.positive}
+
+
+def decode_static(v, instances=None):
     if isinstance(v, list) and len(v) == 2 and v[0] == "@f32":
         import numpy as np
         return np.float32(v[1])
+    if isinstance(v, list) and len(v) == 3 and v[0] == "@obj":
+        return instances.setdefault(("i", v[1], v[2]), CLS[v[1]](v[2]))
+    if isinstance(v, list) and len(v) == 2 and v[0] == "@robj":
+        return _Rp(v[1])
     return v
 
 
@@ -81,7 +170,31 @@ def twin_of(rng, v):
 
 
 def spec_key(c):
-    return json.dumps([c["kind"], c.get("name"), c.get("body"), c.get("k"), c.get("inst")])
+    """the harness' identity of a callable"""
+    k = c["kind"]
+    if k in ("def", "lambda", "closure"):
+        return json.dumps([k, c.get("name"), c.get("body"), c.get("k"), c.get("inst")])
+    if k == "instance":
+        return json.dumps([k, c.get("cls", "Op"), c["inst"]])               # the object
+    if k == "method":
+        return json.dumps([k, c["cls"], c["inst"], c["meth"]])              # the object and the function
+    if k == "rinstance":
+        return json.dumps([k, c["k"]])                                      # what the object prints
+    if k == "rmethod":
+        return json.dumps([k, c["k"], c["meth"]])
+    if k == "classmethod":
+        return json.dumps([k, c["cls"]])                                    # reached through the class or an object: one callable
+    if k == "staticmethod":
+        return json.dumps([k])                                              # one function, whatever it was reached through
+    if k == "wrapped":
+        return json.dumps([k, c["how"], spec_key(c["inner"]), c["w"]])      # the wrapper object
+    if k == "default":
+        return json.dumps([k, c["name"], c["where"], c["k"]])
+    if k == "oclosure":
+        return json.dumps([k, c["name"], spec_key(c["target"])])
+    if k == "builtin":
+        return json.dumps([k, c["which"]])
+    raise ValueError(k)
 
 
 def cid_token(key):
@@ -89,33 +202,69 @@ def cid_token(key):
 
 
 def spec_cname(c):
-    return {"def": c.get("name"), "closure": c.get("name"), "lambda": "<lambda>", "instance": ""}[c["kind"]]
-
-
-class _Op:
-    """callable object: no __name__, default repr"""
-
-    def __call__(self, x=0, *a, **kw):
-        return x
+    k = c["kind"]
+    if k in ("def", "closure", "default", "oclosure"):
+        return c.get("name")
+    if k == "lambda":
+        return "<lambda>"
+    if k in ("instance", "rinstance"):
+        return ""
+    if k in ("method", "rmethod"):
+        return c["meth"]
+    if k == "classmethod":
+        return "cm"
+    if k == "staticmethod":
+        return "sm"
+    if k == "wrapped":
+        return spec_cname(c["inner"])
+    if k == "builtin":
+        return builtins_table()[c["which"]].__name__
+    raise ValueError(k)
 
 
 class World:
-    """the callables of one build; `instances` are shared between the builds of a case"""
+    """the callables of one build; `instances` (objects without __repr__, wrapper objects) are shared between the builds of a case"""
 
     def __init__(self, instances):
         self.instances = instances
         self.by_id = {}
 
+    def obj(self, cls, inst):
+        return self.instances.setdefault(("i", cls, inst), CLS[cls](inst))
+
     def make(self, c):
         k = c["kind"]
         if k == "instance":
-            fn = self.instances.setdefault(c["inst"], _Op())
+            fn = self.obj(c.get("cls", "Op"), c["inst"])
+        elif k == "method":
+            fn = getattr(self.obj(c["cls"], c["inst"]), c["meth"])
+        elif k == "rinstance":
+            fn = _Rp(c["k"])
+        elif k == "rmethod":
+            fn = getattr(_Rp(c["k"]), c["meth"])
+        elif k in ("classmethod", "staticmethod"):
+            base = CLS[c["cls"]] if c.get("via", "class") == "class" else self.obj(c["cls"], 0)
+            fn = base.cm if k == "classmethod" else base.sm
+        elif k == "wrapped":
+            slot = ("w", spec_key(c))
+            if slot not in self.instances:
+                inner = self.make(c["inner"])
+                self.instances[slot] = functools.lru_cache(maxsize=None)(inner) if c["how"] == "lru" else _Wrap(inner, c["w"])
+            fn = self.instances[slot]
+        elif k == "builtin":
+            fn = builtins_table()[c["which"]]
         else:
             ns = {"__name__": "c14gen"}
             if k == "def":
                 exec(f"def {c['name']}(x=0, *a, **kw):\n    return {BODIES[c['body']]}\nfn = {c['name']}\n", ns)
             elif k == "lambda":
                 exec(f"fn = lambda x=0, *a, **kw: {BODIES[c['body']]}\n", ns)
+            elif k == "default":
+                sig = f"x=0, k={c['k']!r}, *a, **kw" if c["where"] == "pos" else f"x=0, *a, k={c['k']!r}, **kw"
+                exec(f"def {c['name']}({sig}):\n    return x + k\nfn = {c['name']}\n", ns)
+            elif k == "oclosure":
+                ns["target"] = self.make(c["target"])
+                exec(f"def mk(o):\n    def {c['name']}(x=0, *a, **kw):\n        return o(x)\n    return {c['name']}\nfn = mk(target)\n", ns)
             else:
                 exec(f"def mk(k):\n    def {c['name']}(x=0, *a, **kw):\n        return {KBODIES[c['body']]}\n    return {c['name']}\nfn = mk({c['k']!r})\n", ns)
             fn = ns["fn"]
@@ -130,15 +279,69 @@ class World:
         return "lib:" + str(getattr(fn, "__module__", "")) + ":" + str(getattr(fn, "__qualname__", repr(fn))), getattr(fn, "__name__", "")
 
 
+def gen_closure(rng):
+    return {"kind": "closure", "name": rng.choice(NAMES), "body": rng.randrange(len(KBODIES)), "k": rng.choice([1, 2, 3, "s"])}
+
+
 def gen_callable(rng):
     r = rng.random()
-    if r < 0.3:
+    if r < 0.22:
         return {"kind": "def", "name": rng.choice(NAMES), "body": rng.randrange(len(BODIES))}
-    if r < 0.55:
+    if r < 0.4:
         return {"kind": "lambda", "body": rng.randrange(len(BODIES))}
-    if r < 0.9:
-        return {"kind": "closure", "name": rng.choice(NAMES), "body": rng.randrange(len(KBODIES)), "k": rng.choice([1, 2, 3, "s"])}
-    return {"kind": "instance", "inst": rng.randrange(3)}
+    if r < 0.62:
+        return gen_closure(rng)
+    if r < 0.69:
+        return {"kind": "instance", "cls": rng.choice(["Op", "Op", "Op2"]), "inst": rng.randrange(3)}
+    if r < 0.77:
+        return {"kind": "method", "cls": rng.choice(["Op", "Op", "Op2"]), "inst": rng.randrange(3), "meth": rng.choice(METHS)}
+    if r < 0.81:
+        return {"kind": "rinstance", "k": rng.choice([1, 2, 3])}
+    if r < 0.85:
+        return {"kind": "rmethod", "k": rng.choice([1, 2, 3]), "meth": rng.choice(METHS)}
+    if r < 0.88:
+        return {"kind": rng.choice(["classmethod", "staticmethod"]), "cls": rng.choice(["Op", "Op2", "Rp"]), "via": rng.choice(["class", "inst"])}
+    if r < 0.92:
+        return {"kind": "wrapped", "how": rng.choice(["lru", "obj"]), "inner": gen_closure(rng), "w": rng.choice([2, 3])}
+    if r < 0.95:
+        return {"kind": "default", "name": rng.choice(NAMES), "where": rng.choice(["pos", "kw"]), "k": rng.choice([1, 2, "s"])}
+    if r < 0.98:
+        return {"kind": "oclosure", "name": rng.choice(NAMES), "target": rng.choice([
+            {"kind": "instance", "cls": "Op", "inst": rng.randrange(2)}, {"kind": "rinstance", "k": rng.choice([1, 2])}, gen_closure(rng)])}
+    return {"kind": "builtin", "which": rng.choice(sorted(builtins_table()))}
+
+
+def gen_pair(rng):
+    """two callables with equal __name__ that differ in ONE ingredient of their identity"""
+    name, meth = rng.choice(NAMES), rng.choice(METHS)
+    fam = rng.choice(["objects", "receivers", "receivers", "methods", "classes", "class-receivers", "printed-state", "printed-receivers",
+                      "classmethods", "lru", "lru-body", "wrapper-state", "wrapper-inner", "defaults", "kwdefaults",
+                      "closure-over-objects", "closure-over-printed", "closure-over-closures", "nested-code", "comprehension-consts"])
+    clo = lambda k, body=0: {"kind": "closure", "name": name, "body": body, "k": k}
+    pair = {
+        "objects": [{"kind": "instance", "cls": "Op", "inst": 0}, {"kind": "instance", "cls": "Op", "inst": 1}],
+        "receivers": [{"kind": "method", "cls": "Op", "inst": 0, "meth": meth}, {"kind": "method", "cls": "Op", "inst": 1, "meth": meth}],
+        "methods": [{"kind": "method", "cls": "Op", "inst": 0, "meth": "apply"}, {"kind": "method", "cls": "Op", "inst": 0, "meth": "other"}],
+        "classes": [{"kind": "instance", "cls": "Op", "inst": 0}, {"kind": "instance", "cls": "Op2", "inst": 0}],
+        "class-receivers": [{"kind": "method", "cls": "Op", "inst": 0, "meth": meth}, {"kind": "method", "cls": "Op2", "inst": 0, "meth": meth}],
+        "printed-state": [{"kind": "rinstance", "k": 1}, {"kind": "rinstance", "k": 2}],
+        "printed-receivers": [{"kind": "rmethod", "k": 1, "meth": meth}, {"kind": "rmethod", "k": 2, "meth": meth}],
+        "classmethods": [{"kind": "classmethod", "cls": "Op", "via": "class"}, {"kind": "classmethod", "cls": "Op2", "via": rng.choice(["class", "inst"])}],
+        "lru": [{"kind": "wrapped", "how": "lru", "inner": clo(1), "w": 0}, {"kind": "wrapped", "how": "lru", "inner": clo(2), "w": 0}],
+        "lru-body": [{"kind": "wrapped", "how": "lru", "inner": clo(1, 0), "w": 0}, {"kind": "wrapped", "how": "lru", "inner": clo(1, 1), "w": 0}],
+        "wrapper-state": [{"kind": "wrapped", "how": "obj", "inner": clo(1), "w": 2}, {"kind": "wrapped", "how": "obj", "inner": clo(1), "w": 3}],
+        "wrapper-inner": [{"kind": "wrapped", "how": "obj", "inner": clo(1), "w": 2}, {"kind": "wrapped", "how": "obj", "inner": clo(2), "w": 2}],
+        "defaults": [{"kind": "default", "name": name, "where": "pos", "k": 1}, {"kind": "default", "name": name, "where": "pos", "k": 2}],
+        "kwdefaults": [{"kind": "default", "name": name, "where": "kw", "k": 1}, {"kind": "default", "name": name, "where": "kw", "k": 2}],
+        "closure-over-objects": [{"kind": "oclosure", "name": name, "target": {"kind": "instance", "cls": "Op", "inst": 0}},
+                                 {"kind": "oclosure", "name": name, "target": {"kind": "instance", "cls": "Op", "inst": 1}}],
+        "closure-over-printed": [{"kind": "oclosure", "name": name, "target": {"kind": "rinstance", "k": 1}},
+                                 {"kind": "oclosure", "name": name, "target": {"kind": "rinstance", "k": 2}}],
+        "closure-over-closures": [{"kind": "oclosure", "name": name, "target": clo(1)}, {"kind": "oclosure", "name": name, "target": clo(2)}],
+        "nested-code": [{"kind": "def", "name": name, "body": 7}, {"kind": "def", "name": name, "body": 8}],
+        "comprehension-consts": [{"kind": "lambda", "body": 9}, {"kind": "lambda", "body": 10}],
+    }[fam]
+    return fam, pair
 
 
 # ------------------------------------------------------------------------------ observation helpers
@@ -215,8 +418,8 @@ BINARY = ["add", "subtract", "multiply", "divide", "power"]
 def make_payload(world, spec, Payload):
     fn = world.make(spec["fn"])
     args, kwargs, via = spec.get("args"), spec.get("kwargs"), spec.get("via", "plain")
-    args = None if args is None else [decode_static(v) for v in args]
-    kwargs = None if kwargs is None else {k: decode_static(v) for k, v in kwargs.items()}
+    args = None if args is None else [decode_static(v, world.instances) for v in args]
+    kwargs = None if kwargs is None else {k: decode_static(v, world.instances) for k, v in kwargs.items()}
     if via == "partial":
         return functools.partial(fn, *(args or []), **(kwargs or {}))
     if args is None and kwargs is None:
@@ -414,6 +617,25 @@ def apply_op(o, actions, world):
     raise ValueError(k)
 
 
+def probe_ops(rng, prog):
+    """the designed pairs of the program, each member mapped over the same action with the same statics
+    (plain, with a static argument, as functools.partial): nodes that differ in their callable only"""
+    out = []
+    for fam, pair in prog.get("pairs", []):
+        i = rng.randrange(len(prog["sources"]))
+        shape = rng.choice(["plain", "plain", "args", "kwargs", "partial"])
+        for spec in pair:
+            o = {"op": "map", "self": i, "fn": spec, "probe": fam}
+            if shape == "args":
+                o["args"] = ["input0", 1]
+            elif shape == "kwargs":
+                o["kwargs"] = {"p": 1}
+            elif shape == "partial":
+                o["args"], o["via"] = [1], "partial"
+            out.append(o)
+    return out
+
+
 def build_sources(prog, world):
     import numpy as np
     from earthkit.workflows.fluent import Payload, from_source
@@ -438,11 +660,12 @@ def run_build(prog, instances, rng=None, nops=0):
     init = [snap(a) for a in actions]
     ops = prog.setdefault("ops", [])
     pool = [s["fn"] for src in prog["sources"] for s in src["cells"]] + prog["pool"]
-    n = nops if rng is not None else len(ops)
+    probes = probe_ops(rng, prog) if rng is not None else []
+    n = nops + len(probes) if rng is not None else len(ops)
     for t in range(n):
         before = [snap(a) for a in actions]
         if rng is not None:
-            ops.append(choose_op(rng, before, pool, ops))
+            ops.append(choose_op(rng, before, pool, ops) if t < nops else probes[t - nops])
         o = ops[t]
         try:
             r = apply_op(o, actions, world)
@@ -583,6 +806,9 @@ def gen_program(rng):
     pool.append({"kind": "def", "name": base, "body": rng.randrange(len(BODIES))})
     pool.append({"kind": "lambda", "body": 1})
     pool.append({"kind": "lambda", "body": 2})
+    pairs = [gen_pair(rng) for _ in range(2)]
+    for _, pair in pairs:
+        pool.extend(pair)
     sources = []
     dims = rng.choice([["x"], ["x"], ["x", "y"], ["y", "x"]])
     sizes = {d: rng.choice([1, 2, 2, 3]) for d in dims}
@@ -605,7 +831,7 @@ def gen_program(rng):
                 c["args"], c["via"] = [rng.choice(STATICS)], "partial"
             cells.append(c)
         sources.append({"dims": list(dims), "coords": coords, "cells": cells})
-    return {"sources": sources, "pool": pool}
+    return {"sources": sources, "pool": pool, "pairs": pairs}
 
 
 # ------------------------------------------------------------------------------ Coq terms
@@ -614,8 +840,8 @@ def cval(v):
         if "'" in v or "\\" in v:
             raise ValueError("string outside the model: " + repr(v))
         return f"(VStr {cstr(v)})"
-    if isinstance(v, (bool, int, float)) or v is None or type(v).__module__ == "numpy":
-        return f"(VAtom {cstr(repr(v))})"      # numpy scalars print as one token too: np.float32(2.5)
+    if isinstance(v, (bool, int, float)) or v is None or type(v).__module__ == "numpy" or isinstance(v, _Op):
+        return f"(VAtom {cstr(repr(v))})"      # numpy scalars and the harness' objects print as one token too: np.float32(2.5), Rp(1)
     raise ValueError("static value outside the model: " + repr(v))
 
 
@@ -638,6 +864,60 @@ def names_case(rows, groups, order_ids):
     gs = clist([clist([f"({cnat(order_ids[i])}, {cstr(ix)})" for i, ix in g]) for g in groups])
     tb = clist([f"({cstr(k)}, {cstr(v)})" for k, v in table.items()])
     return f"({tb}, {clist(nodes)}, {gs})"
+
+
+# ------------------------------------------------------------------------------ what a callable is made of -> Coq
+def dv_obj(obj, path):
+    """describe(obj): a value found in constants, defaults or closure cells"""
+    if isinstance(obj, types.CodeType):
+        return dv_code(obj, path)
+    if isinstance(obj, types.FunctionType):
+        return "DRec" if id(obj) in path else dv_callable(obj, path)
+    return f"(DRepr {cstr(repr(obj))})"
+
+
+def dv_code(code, path):
+    return (f"(DCode {cstr(code.co_code.hex())} {clist(list(code.co_names), cstr)} {clist(list(code.co_varnames), cstr)} "
+            f"{clist([dv_obj(c, path) for c in code.co_consts])})")
+
+
+def ostr(x):
+    if x is not None and not isinstance(x, str):
+        raise ValueError("module / qualified name outside the model: " + repr(x))
+    return copt(x, cstr)
+
+
+def dv_callable(fn, path=()):
+    """the ingredients of the identity of a callable, read off the object (types level)"""
+    mod, qn = getattr(fn, "__module__", None), getattr(fn, "__qualname__", None)
+    inner = getattr(fn, "__func__", fn)
+    if not isinstance(inner, types.FunctionType):
+        return f"(DOther {ostr(mod)} {ostr(qn)} {cstr(repr(fn))})"
+    path = path + (id(fn),)
+    closure = []
+    for cell in inner.__closure__ or ():
+        try:
+            closure.append(dv_obj(cell.cell_contents, path))
+        except ValueError:
+            closure.append("DEmpty")
+    kwd = inner.__kwdefaults__ or {}
+    return (f"(DFunc {ostr(mod)} {ostr(qn)} {dv_code(inner.__code__, path)} {clist([dv_obj(x, path) for x in inner.__defaults__ or ()])} "
+            f"{clist(list(kwd), cstr)} {clist([dv_obj(v, path) for v in kwd.values()])} {clist(closure)} {cstr(repr(getattr(fn, '__self__', None)))})")
+
+
+def callables_case(worlds):
+    """every callable handed to the API in the builds of a program: (description, __name__, digest of the name of Node(callable))"""
+    from earthkit.workflows.fluent import Node as FNode
+    seen, rows = set(), []
+    for w in worlds:
+        for key, cname, fn in w.by_id.values():
+            name = FNode(fn).name
+            base, digest = split_name(name)
+            term = f"({dv_callable(fn)}, {cstr(base)}, {cstr(digest)})"
+            if term not in seen:
+                seen.add(term)
+                rows.append(term)
+    return clist(rows), len(rows)
 
 
 class Cells:
@@ -713,9 +993,51 @@ def ops_case(prog, obs):
     return f"({init}, {clist(steps)})", n
 
 
+# ------------------------------------------------------------------------------ evaluation in Coq
+SHOW = ('Definition show (bs : list bool) : Coq.Strings.String.string := Coq.Strings.String.concat ""%string '
+        '(List.map (fun b : bool => if b then "1"%string else "0"%string) bs).\n')
+
+
+def coq_check_all(jobs, shard):
+    """jobs = [(tag, case terms, checker)]: `checker case : bool` for every case, by vm_compute, all shards of all jobs in
+    one pool of at most 8 coqc.  The cases are the argument of the Eval (not a Definition: nothing of them goes into a .vo);
+    file names carry the process id, so that two runs of the check do not write each other's files.
+    Returns {tag: ([True | False | None per case], [log lines])}; None = the shard did not compile."""
+    from concurrent.futures import ThreadPoolExecutor
+    d = BUILD / "C14"
+    d.mkdir(parents=True, exist_ok=True)
+    uniq = f"p{os.getpid()}"
+    files = []
+    for tag, terms, checker in jobs:
+        for k in range(0, len(terms), shard):
+            chunk = terms[k:k + shard]
+            p = d / f"{tag}_{uniq}_{k // shard}.v"
+            p.write_text(HEADER + SHOW + f"Eval vm_compute in show (List.map ({checker}) [\n" + ";\n".join("  " + c for c in chunk) + "\n]).\n")
+            files.append((tag, p, len(chunk)))
+    out = {tag: ([], []) for tag, _, _ in jobs}
+    try:
+        with ThreadPoolExecutor(max_workers=8) as ex:
+            outs = list(ex.map(lambda f: coq_eval_file(f[1], 600), files))
+        for (tag, p, n), (rc, text) in zip(files, outs):
+            m = re.search(r'=\s*"([01]*)"', text.replace("\n", "").replace(" ", "")) if rc == 0 else None
+            if rc != 0 or not m or len(m.group(1)) != n:
+                out[tag][0].extend([None] * n)
+                out[tag][1].append(f"{p.name}: rc={rc} {text[-1500:]}")
+            else:
+                out[tag][0].extend(c == "1" for c in m.group(1))
+    finally:
+        for _, p, _ in files:
+            for q in (p, p.with_suffix(".vo"), p.with_suffix(".vok"), p.with_suffix(".vos"), p.with_suffix(".glob"), p.parent / ("." + p.stem + ".aux")):
+                try:
+                    q.unlink()
+                except OSError:
+                    pass
+    return out
+
+
 # ------------------------------------------------------------------------------ driver
 def stored(prog):
-    return {"sources": prog["sources"], "pool": prog["pool"], "ops": prog.get("ops", [])}
+    return {"sources": prog["sources"], "pool": prog["pool"], "ops": prog.get("ops", [])}      # (the probes are among the ops)
 
 
 def run(ctx, res):
@@ -735,7 +1057,7 @@ def run(ctx, res):
                 res.fail(sig, what, c)
     rng = ctx.sub_rng("programs")
     nprog = ctx.n(160, 3200)
-    name_terms, name_meta, op_terms, op_meta = [], [], [], []
+    name_terms, name_meta, op_terms, op_meta, call_terms, call_meta = [], [], [], [], [], []
     for k in range(nprog):
         prog = gen_program(rng)
         obs, fails = run_program(prog, rng, nops=rng.choice([3, 5, 7, 9]))
@@ -752,6 +1074,11 @@ def run(ctx, res):
             if o["op"] == "binary" and "other" in o and "err" not in st:
                 a, b = st["before"][o["self"]], st["before"][o["other"]]
                 res.count("binary-between-actions:" + ("coordinates-differ" if a["labels"] != b["labels"] else "coordinates-equal"))
+        for fam, _ in prog.get("pairs", []):
+            res.count("designed-pair:" + fam)
+        for o in prog["ops"]:
+            if "fn" in o:
+                res.count("callable-kind:" + o["fn"]["kind"])
         rows = obs["rowsA"]
         for r in rows:
             if r["nin"]:
@@ -774,22 +1101,25 @@ def run(ctx, res):
             op_terms.append(term)
             op_meta.append(prog)
             res.count("heap-model-steps", n)
+            term, n = callables_case([obs["A"]["world"], obs["B"]["world"]])
+            call_terms.append(term)
+            call_meta.append(prog)
+            res.count("callables-described", n)
         except ValueError as e:
             res.disagree(f"case cannot be written as a Coq term: {e}", stored(prog))
-    r, logs = coq_results("C14", HEADER, name_terms, "check_names", shard=ctx.n(40, 100), tag="names")
-    res.corr_checked += len(r)
-    for ok, prog in zip(r, name_meta):
-        if ok is not True:
-            res.disagree("Coq model of node naming disagrees with earthkit.workflows.fluent (name prefix, from_source label, or which nodes share a digest)" +
-                         ("" if ok is False else " (cases file did not compile: " + (logs[0][-400:] if logs else "") + ")"), stored(prog))
-            break
-    r, logs = coq_results("C14", HEADER, op_terms, "check_ops", shard=ctx.n(40, 100), tag="ops")
-    res.corr_checked += len(r)
-    for ok, prog in zip(r, op_meta):
-        if ok is not True:
-            res.disagree("Coq heap model of fluent operations disagrees with earthkit.workflows.fluent (returned action, or the array of some action after an operation)" +
-                         ("" if ok is False else " (cases file did not compile: " + (logs[0][-400:] if logs else "") + ")"), stored(prog))
-            break
+    checked = coq_check_all([("names", name_terms, "check_names"), ("ops", op_terms, "check_ops"), ("callables", call_terms, "check_callables")],
+                            shard=ctx.n(40, 100))
+    for tag, meta, what in (
+            ("names", name_meta, "Coq model of node naming disagrees with earthkit.workflows.fluent (name prefix, from_source label, or which nodes share a digest)"),
+            ("ops", op_meta, "Coq heap model of fluent operations disagrees with earthkit.workflows.fluent (returned action, or the array of some action after an operation)"),
+            ("callables", call_meta, "Coq model of callable_id disagrees with earthkit.workflows.fluent (two callables made of different things -- code, defaults, "
+                                     "closure contents, receiver, repr -- share the digest in a node name, or equal ones do not)")):
+        r, logs = checked[tag]
+        res.corr_checked += len(r)
+        for ok, prog in zip(r, meta):
+            if ok is not True:
+                res.disagree(what + ("" if ok is False else " (cases file did not compile: " + (logs[0][-400:] if logs else "") + ")"), stored(prog))
+                break
 
 
 def shrink(ctx, f):
